@@ -121,7 +121,7 @@ PROPS = {
         "technique": "round-trip property-based testing (rapidcheck): save/load through memory streams, chunked pipes and files; byte-identity across saves, compilations and processes",
         "level_text": ("Generated rule sets covering every construct class are saved and loaded back through an exact "
                        "in-memory stream, a pipe-backed FILE* fed in generated chunk sizes (buffered and unbuffered) and "
-                       "yr_rules_save/load on a file; the loaded rules must produce the same full trace (messages and "
+                       "yr_rules_save/load on a file (new, or already holding longer content); the loaded rules must produce the same full trace (messages and "
                        "per-string matches) through rules-level and scanner scans, enumerate the same rules/tags/metas/"
                        "strings/externals, the original must scan identically after saving, and the bytes must be "
                        "identical across two saves, a save of the loaded rules, two compilations in one process and a "
@@ -198,12 +198,12 @@ PROPS = {
     "C11": {
         "src": "c11", "engine": "rc", "level": "exploration",
         "technique": "model-based property testing (rapidcheck) of the callback message sequence, exhaustive over the interruption index and reply",
-        "level_text": ("For generated rule sets (plain / private / global / global private rules over 1-3 namespaces, rule "
+        "level_text": ("For generated rule sets (plain / private / global / global private rules over 1-3, sometimes 9-12, namespaces, rule "
                        "references, 0-3 imports per rule incl. the same module from several namespaces, conditions from the "
                        "C04 grammar) and each of the four report-flag settings, the exact expected message sequence "
                        "(import/imported once per module, one message per non-private rule in definition order with the "
                        "global-rule semantics, finished last) is computed from the reference interpreter and compared with "
-                       "the engine's, for the uninterrupted scan and for ABORT and ERROR replies at every message index k."),
+                       "the engine's, for the uninterrupted scan and for ABORT and ERROR replies at every message index k; the scanner of a case has scanned another buffer before."),
         "level_note": ("Trusts the C04 interpreter for the truth of conditions (cases touching its two known findings are "
                        "discarded); ABORT in reply to a module message and any reply to the finished message are accepted "
                        "as the engine behaves (the property is silent)."),
@@ -219,11 +219,11 @@ PROPS = {
         "src": "c10", "engine": "rc", "level": "exploration", "leaks": True,
         "technique": "stateful differential property testing (rapidcheck): every scan of a generated history on one scanner vs the same scan on a fresh scanner",
         "level_text": ("One long-lived scanner runs a generated history of scans over PE, ELF, Mach-O, empty and text buffers "
-                       "through mem / file / fd / block-iterator entry points with callback scripts (ABORT or ERROR at the "
+                       "through mem / file / fd / block-iterator entry points (iterators with and without a file_size function) with callback scripts (ABORT or ERROR at the "
                        "k-th message, not-ready suspensions that are resumed or abandoned), interleaved with set_flags, "
                        "set_timeout and scanner-level definitions; after every scan the full trace (messages, per-string "
                        "matches, return code) must equal that of the same scan on a freshly created scanner with the same "
-                       "settings. Rules expose entrypoint, filesize, pe/elf/macho fields, math/hash values, string counts, "
+                       "settings. The rule set spans 14 namespaces with global gates that depend on the kind of buffer; rules expose entrypoint, filesize, pe/elf/macho fields, math/hash values, string counts, "
                        "offsets and lengths. The scanner is destroyed after the history and LeakSanitizer is run."),
         "level_note": ("Trusts the shim; scans ending in ERROR_TOO_MANY_RE_FIBERS (9% of scans) and in a muted string "
                        "after 1,000,000 matches (3%, about a second each) are part of the histories; timeouts are exercised "
@@ -284,7 +284,7 @@ PROPS = {
         "level_text": ("Five concurrent libFuzzer campaigns (pe+dotnet, elf, macho, dex, generic) start from the repository's "
                        "fuzz corpora and test samples and mutate them with libFuzzer's mutators plus a structure-aware one "
                        "(boundary values written into header / table fields found through the format's own offsets, "
-                       "truncations). Every input is scanned with SCAN_FLAGS_NO_TRYCATCH by rules that are generated from "
+                       "truncations, composites that put a table at the very end of the data while raising a count next to it; the PE campaign also starts from a systematic set of such variants of every seed's data directories). Every input is scanned with SCAN_FLAGS_NO_TRYCATCH by rules that are generated from "
                        "the module declaration tree of the tree under test and read every field, iterate every array and "
                        "dictionary, index at 0 and far beyond, and call every function prototype. Oracle: no ASan/UBSan/"
                        "LSan report, no assertion, the scan returns success or a documented error within 30 s, and all "
@@ -352,9 +352,9 @@ PROPS = {
                        "buffer counts, sizes and offsets set to 0, 1, size+-1, size/2, size+8, 2^31, 2^32-1, 2^64-1); each "
                        "damaged image is loaded through an in-memory stream or a chunked pipe in a forked child. Oracle: "
                        "the load returns an error and leaves no rule set; a load that succeeds must give rules whose full "
-                       "scan traces equal the intact rules' (which is what makes a rewrite of the unused offset field "
-                       "acceptable); a crash / assertion / sanitizer report in the child is a violation; the enumeration "
-                       "resumes behind a crashing point."),
+                       "scan traces equal the intact rules' (a successful load is accepted only for a rewrite of the table's unused offset field); "
+                       "a crash / assertion / sanitizer report in the child is a violation; the enumeration "
+                       "resumes behind a crashing point. A few cut points per file are also given to the ASan-built `yara -C`, with and without -d: it must print a diagnostic and exit non-zero."),
         "level_note": ("Exhaustive per generated file for files <= 64 KiB; the set of files is what rapidcheck generates in "
                        "the budget; damage inside the bodies or the relocation table other than truncation is outside the "
                        "property."),
@@ -371,11 +371,11 @@ PROPS = {
         "extra_link": ["-Wl,--wrap=malloc", "-Wl,--wrap=calloc", "-Wl,--wrap=realloc", "-Wl,--wrap=strdup", "-Wl,--wrap=strndup"],
         "replay_timeout": 900,
         "technique": "fault enumeration: link-time allocator interposition, every k-th allocation of every scenario fails (alone and with all later ones) in a forked child under ASan + LeakSanitizer; scenario contents partly generated by rapidcheck",
-        "level_text": ("Ten fixed scenarios cover the API groups (initialise/finalise; compiling text, hex, regexp, base64, xor, "
+        "level_text": ("Fourteen fixed scenarios cover the API groups (initialise/finalise; compiling text, hex, regexp, base64, xor, "
                        "chained strings, loops, includes, namespaces, externals, atom table through add_string/bytes/file/fd; "
                        "get_rules; save/load through a stream and a file; rules-level and scanner-level definitions; scans "
                        "through mem/file/fd/block iterators with pe, dotnet, elf, macho, dex, hash, math, string, time and "
-                       "console on matching samples) and rapidcheck adds generated compile+scan scenarios. For a scenario "
+                       "console and tests on matching samples; a 1100-token hex string; base64 of wide strings) and rapidcheck adds generated compile+scan scenarios. For a scenario "
                        "with N allocations, for EVERY k <= N the k-th malloc/calloc/realloc/strdup/strndup made by the code "
                        "under test (flex/bison included) returns NULL, and again with all allocations from k on failing; "
                        "each fault point runs in a forked child. Oracle: no crash / assertion / sanitizer report; every call "
@@ -399,7 +399,7 @@ PROPS = {
         "technique": "boundary-directed property testing (rapidcheck): one generator per engine limit producing L-1, L, L+1 and far-beyond inputs and configurations, with the documented outcome as oracle and a post-event canary",
         "level_text": ("Twelve generators, one per limit: identifier length (128), integer literal range incl. KB/MB/hex/octal, "
                        "loop nesting (4), strings per rule (YR_CONFIG_MAX_STRINGS_PER_RULE 1..64), include depth (16), lexer "
-                       "buffer (8192), regexp repeat interval (32767) / split count (128) / size, scan-time fiber limit, "
+                       "buffer (8192), regexp repeat interval (32767) / split count (128) / code size in every position that emits a 16-bit jump, scan-time fiber limit (string regexps and `matches`, then the same scanner again), "
                        "evaluation stack (YR_CONFIG_STACK_SIZE 4..64: the overflow depth must be exact, monotone and grow with "
                        "the stack), matches per string (1,000,000 with CONTINUE / ABORT / ERROR replies; the other rule's "
                        "results must be unaffected), scan timeout (1-2 s on four rule shapes that cannot finish), match-data "
@@ -425,7 +425,7 @@ PROPS = {
                        "YR_SCANNER with its own external definitions or the yr_rules_scan_mem/file/fd calls, PE / ELF / text "
                        "/ empty buffers, memory-mapped file scans, report flags, callback scripts that ABORT or ERROR at the "
                        "k-th message, callbacks that yield or sleep to perturb the interleaving; all threads start together "
-                       "and each plan is repeated 1-3 times. Oracle: ThreadSanitizer reports nothing (halt_on_error), and "
+                       "and each plan is repeated 1-3 times; some plans drive one string over the match limit in one thread. Two hand-written concurrent cases run first (sixteen 3 s-timeout scanners on 3 MiB: a timeout after less than half the allowance of wall-clock time is a violation, an honest one under load is inconclusive; a scan over the match limit next to three threads scanning the same string). Oracle: ThreadSanitizer reports nothing (halt_on_error), and "
                        "every scan's full trace equals the trace of the same scan run alone."),
         "level_note": ("The harness does not own the thread schedule: schedules are sampled and perturbed, not enumerated; "
                        "TSan's happens-before analysis flags unsynchronised accesses that were executed even when the "
